@@ -19,6 +19,7 @@
 #include <zix/btree.h>
 #include <zix/status.h>
 
+#include <limits.h>
 #include <stdarg.h>
 #include <stdbool.h>
 #include <sys/wait.h>
@@ -253,6 +254,22 @@ static Elt* cur_probe; // the key object of the running lower_bound
 static long*  dvec; // tags passed to the destroy callback, in call order
 static size_t dlen, dcap;
 
+// The comparator contract is the sign of the result.  Case flags pick the magnitude: default -1/0/1, 'd' = the key
+// difference (the `return a - b` idiom), 'x' = INT_MIN / INT_MAX.
+static int cmp_style;
+
+static inline int cmp_result(const long x, const long y)
+{
+  const int sign = (x > y) - (x < y);
+  if (cmp_style == 1) {
+    return (int)(x - y);
+  }
+  if (cmp_style == 2) {
+    return sign < 0 ? INT_MIN : sign > 0 ? INT_MAX : 0;
+  }
+  return sign;
+}
+
 static int tree_cmp(const void* a, const void* b, const void* ud)
 {
   const Elt* x = elt_of(a);
@@ -261,7 +278,7 @@ static int tree_cmp(const void* a, const void* b, const void* ud)
     ud_bad = 1;
   }
   seq_add(&cmplog, x->tag);
-  return (x->key > y->key) - (x->key < y->key);
+  return cmp_result(x->key, y->key);
 }
 
 static void check_roles(const Elt* x, const Elt* y, const void* ud)
@@ -280,7 +297,7 @@ static int lb_cmp(const void* a, const void* b, const void* ud)
   const Elt* y = elt_of(b);
   check_roles(x, y, ud);
   seq_add(&cmplog, x->tag);
-  return (x->key > y->key) - (x->key < y->key);
+  return cmp_result(x->key, y->key);
 }
 
 static int wild_cmp(const void* a, const void* b, const void* ud)
@@ -290,7 +307,7 @@ static int wild_cmp(const void* a, const void* b, const void* ud)
   check_roles(x, y, ud);
   seq_add(&cmplog, x->tag);
   const int xh = x->key >> 4, yh = y->key >> 4;
-  return (xh > yh) - (xh < yh);
+  return cmp_result(xh, yh);
 }
 
 static void destroy_cb(void* p, const void* ud)
@@ -709,6 +726,7 @@ int main(void)
       } else {
         verbose = (n >= 2 && strchr(tok[1], 'v')) ? 1 : 0;
         tracing = (n >= 2 && strchr(tok[1], 'a')) ? 1 : 0;
+        cmp_style = (n >= 2 && strchr(tok[1], 'd')) ? 1 : (n >= 2 && strchr(tok[1], 'x')) ? 2 : 0;
         first = n >= 2 ? 2 : n; // tok[1] = flags ('-', 'v', '2', 'v2')
         run_case(tok + first, n - first);
       }
